@@ -828,9 +828,9 @@ def run_property(prop, tier, seed):
 
 def replay_file(path):
     text = open(path).read()
-    mc = re.search(r"^circle_entry (\d+) (\d+) (\d+)$", text, re.M)
+    mc = re.search(r"^circle_entry (\d+) (\d+) (\d+)(?: (\S+))?$", text, re.M)
     if mc:
-        return replay_circle(path, text, *[int(x) for x in mc.groups()])
+        return replay_circle(path, text, int(mc.group(1)), int(mc.group(2)), int(mc.group(3)), mc.group(4) or "")
     m = re.search(r"^grid9 (.*)$", text, re.M)
     if not m:
         print("cannot parse")
@@ -1527,7 +1527,7 @@ def q_c12_all(tr):
 QUERIES["C12"] = q_c12_all
 
 
-def replay_circle(path, text, ci, k, n):
+def replay_circle(path, text, ci, k, n, qname=""):
     class _TR:
         pass
     tr = _TR()
@@ -1553,10 +1553,202 @@ def replay_circle(path, text, ci, k, n):
     print("real code renders (scale 1): circles %r, canvas %r x %r" % (got and got[0], got and got[1], got and got[2]))
     if got and len(got[0]) == 1:
         (cx, cy, r), w, h = got[0][0], got[1], got[2]
-        if cx - r < -1e-4 or cy - r < -1e-4 or cx + r > w + 1e-4 or cy + r > h + 1e-4:
+        if qname.startswith("o13_1"):
+            bad, msg = judge_extent(e, k, n, got), "the circle's horizontal extent differs from the drawing's extent"
+        elif qname.startswith("o13_2"):
+            bad, msg = judge_close(e, k, n, got), "a cell of the drawing lies farther than one cell from the circle"
+        else:
+            bad = cx - r < -1e-4 or cy - r < -1e-4 or cx + r > w + 1e-4 or cy + r > h + 1e-4
+            msg = "the circle leaves the canvas"
+        if bad:
             mp = re.search(r"counterexample for property (\S+),", text)
-            print("the circle leaves the canvas")
+            print(msg)
             print("VIOLATION property=%s replay=%s" % (mp.group(1) if mp else "?", path))
             return 1
-    print("the circle lies inside the canvas: the counterexample does not reproduce on this tree")
+    print("the real rendering does not show the violation: the counterexample does not reproduce on this tree")
     return 0
+
+
+# ---------------------------------------------------------------------------
+# C13 (geometry half): the catalogue circle matches its drawing
+
+def _circle_decls(cat, with_cells):
+    N = len(cat)
+    num = lambda q: "(/ %d.0 %d.0)" % (Fraction(q).numerator, Fraction(q).denominator)
+    ite = lambda f: "".join("(ite (= ci %d) %s " % (i, f(e)) for i, e in enumerate(cat[:-1])) + f(cat[-1]) + ")" * (N - 1)
+    slash = lambda e: any(row[:1] in ("/", "\\", "╱", "╲") for row in e["art"])
+    decl = ["(declare-const pk Int)", "(declare-const pn Int)"]
+    if with_cells:
+        cells = []
+        for i, e in enumerate(cat):
+            for y, row in enumerate(e["art"]):
+                for x, ch in enumerate(row):
+                    if not ch.isspace():
+                        cells.append((i, x, y))
+        G = len(cells)
+        chain = lambda f: "".join("(ite (= gi %d) %s " % (g, f(c)) for g, c in enumerate(cells[:-1])) + f(cells[-1]) + ")" * (G - 1)
+        decl += ["(declare-const gi Int)",
+                 "(define-fun ci () Int %s)" % chain(lambda c: str(c[0])),
+                 "(define-fun gx () Real %s)" % chain(lambda c: num(Fraction(2 * c[1] + 1, 2))),   # cell centre, cell = 1 x 2 units
+                 "(define-fun gy () Real %s)" % chain(lambda c: num(2 * c[2] + 1))]
+        rng = "(and (<= 0 gi) (< gi %d) (<= 0 pk) (<= 0 pn))" % G
+    else:
+        decl += ["(declare-const ci Int)"]
+        rng = "(and (<= 0 ci) (< ci %d) (<= 0 pk) (<= 0 pn))" % N
+    decl += ["(define-fun cW () Real %s)" % ite(lambda e: num(e["w"])),
+             "(define-fun cEdge () Bool %s)" % ite(lambda e: "true" if e["edge"] == "LeftEdge" else "false"),
+             "(define-fun cSlash () Bool %s)" % ite(lambda e: "true" if slash(e) else "false"),
+             "(define-fun cOY () Real %s)" % ite(lambda e: num(e["oy"])),
+             "(define-fun cCols () Real %s)" % ite(lambda e: num(e["cols"])),
+             "(define-fun cRows () Real %s)" % ite(lambda e: num(e["rows"])),
+             "(define-fun cWidth () Real (ite cEdge (+ cW 1.0) cW))",
+             "(define-fun cR () Real (/ cWidth 2.0))",
+             "(define-fun cX () Real (+ (to_real pk) cR (ite cEdge 0.0 0.5)))",
+             "(define-fun cY () Real (+ (* 2.0 (to_real pn)) (* cOY 2.0)))"]
+    return decl, rng
+
+
+def _circle_query(tr, name, obl, desc, cat, with_cells, viol, what, judge, base=0):
+    """one (check-sat) over the catalogue; judge(entry, k, n, native) -> bool: the real rendering shows the violation"""
+    decl, rng = _circle_decls(cat, with_cells)
+    s = tr.solver
+    t0 = time.time()
+    block = ["(push 1)"] + decl + ["(assert %s)" % rng, "(assert %s)" % viol, "(check-sat)"]
+    s.script.extend(block)
+    s._send("\n".join(block))
+    res = s._readline()
+    while res.startswith("(error"):
+        res = s._readline()
+    vals = {}
+    if res == "sat":
+        s._send("(get-value (ci pk pn))")
+        txt, depth = "", 0
+        while True:
+            ln = s.p.stdout.readline()
+            txt += ln
+            depth += ln.count("(") - ln.count(")")
+            if depth <= 0 and txt.strip():
+                break
+        vals = {a: int(b) for a, b in re.findall(r"\((\w+) (\d+)\)", txt)}
+    s._send("(pop 1)")
+    s.script.append("(pop 1)")
+    s.time += time.time() - t0
+    s.results.append(res)
+    tr.nq += 1
+    if res == "unsat":
+        # vacuity witness: the ranges alone are satisfiable
+        block = ["(push 1)"] + decl + ["(assert %s)" % rng, "(check-sat)"]
+        s.script.extend(block)
+        s._send("\n".join(block))
+        r2 = s._readline()
+        s._send("(pop 1)")
+        s.script.append("(pop 1)")
+        s.results.append(r2)
+        tr.nq += 1
+        if r2 != "sat":
+            return tr.add(name, obl, desc, "inconclusive", reason="vacuous: ranges unsatisfiable (%s)" % r2, queries=2)
+        return tr.add(name, obl, desc, "pass", solver_s=round(time.time() - t0, 4), queries=2)
+    if res != "sat" or "ci" not in vals:
+        return tr.add(name, obl, desc, "inconclusive", reason="solver answered %s" % res, queries=1)
+    e = cat[vals["ci"]]
+    k, n = min(vals.get("pk", 0), 40), min(vals.get("pn", 0), 40)
+    got = native_circle(tr, e, k, n)
+    rep = bool(got and len(got[0]) == 1 and judge(e, k, n, got))
+    os.makedirs(os.path.join(core.VERIF, "replays"), exist_ok=True)
+    path = os.path.join(core.VERIF, "replays", "%s-T-%s.txt" % (tr.prop, name))
+    with open(path, "w") as f:
+        f.write("# tablesmt counterexample for property %s, obligation %s (%s)\n" % (tr.prop, obl, name))
+        f.write("# violated: %s (catalogue entry %d at column %d, row %d)\n" % (what, base + vals["ci"], k, n))
+        f.write("circle_entry %d %d %d %s\n" % (base + vals["ci"], k, n, name))
+        for row in e["art"]:
+            f.write("#   |%s|\n" % row)
+        f.write("native_render %r\n" % (got and (got[0], got[1], got[2]),))
+        f.write("reproduced %s\n" % rep)
+    return tr.add(name, obl, desc, "fail" if rep else "inconclusive",
+                  reason="" if rep else "counterexample does not reproduce on the real crate",
+                  key=what, reproduced=rep, replay=path, counterexample=e["art"], queries=1,
+                  solver_s=round(time.time() - t0, 4))
+
+
+C13_TOL = 2.5   # units (cell = 1 x 2): cell centre within one cell height + half a cell width of the circle line
+
+
+def judge_extent(e, k, n, got):
+    (cx, cy, r) = got[0][0]
+    flush = any(row[:1] in ("/", "\\", "╱", "╲") for row in e["art"])
+    lo = k + (0.0 if flush else 0.5)
+    hi = k + e["cols"] - (0.0 if flush else 0.5)
+    return abs(cx - r - lo) > 1e-4 or abs(cx + r - hi) > 1e-4
+
+
+def judge_close(e, k, n, got):
+    (cx, cy, r) = got[0][0]
+    import math as _m
+    for y, row in enumerate(e["art"]):
+        for x, ch in enumerate(row):
+            if not ch.isspace():
+                d = _m.hypot(k + x + 0.5 - cx, 2 * (n + y) + 1.0 - cy)
+                if abs(d - r) > C13_TOL + 1e-4:
+                    return True
+    return False
+
+
+def q_c13(tr):
+    try:
+        cat = load_circle_catalogue(os.path.join(core.CRATE, "src"))
+    except tables.Unsupported as e:
+        tr.add("o13_catalogue", "O13", "circle catalogue", "inconclusive",
+               reason="circle catalogue is outside the translatable subset: %s" % e)
+        return
+    bad = []
+    for idx, e in enumerate(cat):
+        got = native_circle(tr, e, 0, 0)
+        cx, cy, r = circle_model(e)
+        want = (float(cx), float(cy), float(r))
+        if not got or len(got[0]) != 1 or any(abs(a - b) > 1e-4 for a, b in zip(got[0][0], want)):
+            bad.append((idx, want, got and got[0]))
+    tr.circle_validation = {"entries": len(cat), "disagreements": len(bad)}
+    if bad:
+        tr.add("o13_catalogue", "O13", "circle catalogue", "inconclusive",
+               reason="catalogue model and real crate disagree on entry %d: model %r, rendered %r "
+                      "(the drawing is not emitted as exactly one circle with the catalogue's centre/radius)" % bad[0])
+        return
+    N = len(cat)
+    _circle_query(
+        tr, "o13_1_extent_radius", "O13.1",
+        "every catalogue entry (%d, index symbolic) at every placement (k, n >= 0 symbolic): the circle's horizontal extent "
+        "[cx-r, cx+r] equals the drawing's extent - from the middle of its first to the middle of its last column, or from "
+        "edge to edge when its left-most column holds a slash - i.e. r = (cols-1)/2 resp. cols/2 cells" % N,
+        cat, False,
+        "(or (not (= (- cX cR) (+ (to_real pk) (ite cSlash 0.0 0.5)))) "
+        "(not (= (+ cX cR) (- (+ (to_real pk) cCols) (ite cSlash 0.0 0.5)))))",
+        "the circle's horizontal extent differs from the drawing's extent", judge_extent)
+    t = "%s" % C13_TOL
+    # one pair of queries per entry (cell index symbolic over the entry's cells): keeps the ite chains short,
+    # which matters for the cvc5 cross-check
+    for idx, e in enumerate(cat):
+        ncells = sum(len(r.replace(' ', '')) for r in e["art"])
+        # (a) linear: the offset between a cell centre and the circle centre does not depend on the placement
+        _circle_query(
+            tr, "o13_2a_offset_placement_free_%02d" % idx, "O13.2",
+            "catalogue entry %d, every occupied cell (cell index symbolic over its %d cells), every placement (k, n >= 0 "
+            "symbolic): the offset (cell centre - circle centre) equals the placement-free offset "
+            "(gx - (r + edge increment), gy - 2*offset_center_y)" % (idx, ncells),
+            [e], True,
+            "(or (not (= (- (+ (to_real pk) gx) cX) (- gx (+ cR (ite cEdge 0.0 0.5))))) "
+            "(not (= (- (+ (* 2.0 (to_real pn)) gy) cY) (- gy (* cOY 2.0)))))",
+            "cell-to-centre offset depends on the placement", lambda e, k, n, got: False, base=idx)
+        # (b) the placement-free offsets: within tolerance of the circle line
+        _circle_query(
+            tr, "o13_2_cells_near_circle_%02d" % idx, "O13.2",
+            "catalogue entry %d, every occupied cell (cell index symbolic over its %d cells): the cell centre lies within %s "
+            "units (one cell height plus half a cell width) of the circle line, decided without square roots as "
+            "(r-t)^2 <= d^2 <= (r+t)^2 on the placement-free offsets of O13.2a" % (idx, ncells, t),
+            [e], True,
+            "(let ((dx (- gx (+ cR (ite cEdge 0.0 0.5)))) (dy (- gy (* cOY 2.0)))) (let ((d2 (+ (* dx dx) (* dy dy)))) "
+            "(or (> d2 (* (+ cR %s) (+ cR %s))) (and (> cR %s) (< d2 (* (- cR %s) (- cR %s)))))))" % (t, t, t, t, t),
+            "a cell of the drawing lies farther than one cell from the emitted circle", judge_close, base=idx)
+
+
+QUERIES["C13"] = q_c13
+PROPS.add("C13")
